@@ -179,7 +179,10 @@ def library_motion_contract(name, coord, move):
     if len(dd) and dd.max() > 2e-2:
         return f"{name}: signed dihedral changes {h0[dd.argmax()]:.4f} -> {h1[dd.argmax()]:.4f} (mirror image?)"
     # the variants on plain coordinates agree with the AtomArray variants
-    plain = move(arr.coord.copy())
+    given = arr.coord.copy()
+    plain = move(given)
+    if not np.array_equal(given, arr.coord):
+        return f"{name}: the ndarray variant changed its input"
     if not np.allclose(plain, moved.coord, atol=1e-3):
         return f"{name}: ndarray variant differs from the AtomArray variant"
     return None
@@ -198,6 +201,13 @@ for it in range(N // 5):
                ("rotate_about_axis", lambda a: struc.rotate_about_axis(a, ax, th, sup)),
                (f"orient_principal_components(order={order})", lambda a: struc.orient_principal_components(a, order)),
                ("align_vectors", lambda a: struc.align_vectors(a, o1, o2, t1, t2))]
+    # vector arguments that are float32 views into the very coordinates being moved (e.g. "rotate about the bond
+    # to atom 1"): the motion must still be rigid and must not write into its arguments
+    motions += [("rotate_about_axis, axis = a view of the coordinates", lambda a: struc.rotate_about_axis(a, (a.coord if hasattr(a, "coord") else a)[1], th, (a.coord if hasattr(a, "coord") else a)[0])),
+                ("translate, vector = a view of the coordinates", lambda a: struc.translate(a, (a.coord if hasattr(a, "coord") else a)[2])),
+                ("align_vectors, directions = views of the coordinates",
+                 lambda a: struc.align_vectors(a, (a.coord if hasattr(a, "coord") else a)[1], (a.coord if hasattr(a, "coord") else a)[2],
+                                               (a.coord if hasattr(a, "coord") else a)[0], (a.coord if hasattr(a, "coord") else a)[3]))]
     for name, move in motions:
         R.check("the library's own rigid motions keep distances and signed dihedrals", f"transform: {name.split('(')[0]}",
                 {"n": n, "draw": it, "motion": name}, lambda name=name, coord=coord, move=move: library_motion_contract(name, coord, move))
